@@ -309,6 +309,9 @@ RECORDS: Dict[str, Tuple[Tuple[str, ...], Dict[str, Any], bool, frozenset]] = {}
 DEFAULTS: Dict[str, Dict[str, Any]] = {}
 
 
+# package function -> per positional parameter its constant default (or the marker _NO_DEFAULT)
+POS_DEFAULTS: Dict[str, Tuple[Any, ...]] = {}
+_NO_DEFAULT = object()
 # module-level constant lookup tables: global name -> {constant key: value term}
 CONST_TABLES: Dict[str, Dict[Any, Term]] = {}
 # module-private sentinels (`_X = object()` that is only ever returned and compared by identity): global name ->
@@ -446,6 +449,8 @@ def _project(t: Term) -> Optional[Term]:
             and type(t[2][1]) in (int, float, str) and type(t[3][1]) in (int, float, str) and (isinstance(t[2][1], str) == isinstance(t[3][1], str)):
         a, b = t[2][1], t[3][1]
         return ("const", {"<": a < b, "<=": a <= b, "==": a == b, "!=": a != b}[t[1]])
+    elif k == "cmp" and t[1] in ("is", "isnot") and is_term(t[2]) and is_term(t[3]) and t[2][0] == "const" and t[3][0] == "const" and (t[2][1] is None or t[3][1] is None):
+        return ("const", (t[2][1] is t[3][1]) == (t[1] == "is"))
     elif k in ("and", "or") and len(t) == 2 and any(is_term(x) and x[0] == "const" for x in t[1]):
         keep = []
         for x in t[1]:
@@ -481,6 +486,16 @@ def _project(t: Term) -> Optional[Term]:
         return canon_cmp(_OPERATOR[t[1][1][9:]], t[2][0], t[2][1])
     elif k == "not" and len(t) == 2 and is_term(t[1]) and t[1][0] == "const":
         return ("const", not t[1][1])
+    elif k == "call" and len(t) == 4 and not t[3] and t[2] and is_term(t[1]) and t[1][0] == "glob" and t[1][1] in POS_DEFAULTS \
+            and len(t[2]) <= len(POS_DEFAULTS[t[1][1]]) and is_term(t[2][-1]) and t[2][-1][0] == "const" \
+            and POS_DEFAULTS[t[1][1]][len(t[2]) - 1] is not _NO_DEFAULT and t[2][-1] == ("const", POS_DEFAULTS[t[1][1]][len(t[2]) - 1]) \
+            and type(t[2][-1][1]) is type(POS_DEFAULTS[t[1][1]][len(t[2]) - 1]):
+        args = list(t[2])
+        d = POS_DEFAULTS[t[1][1]]
+        while args and is_term(args[-1]) and args[-1][0] == "const" and d[len(args) - 1] is not _NO_DEFAULT and args[-1] == ("const", d[len(args) - 1]) \
+                and type(args[-1][1]) is type(d[len(args) - 1]):
+            args.pop()                    # an explicit argument that equals the default
+        return ("call", t[1], tuple(args), ())
     elif k == "call" and len(t) == 4 and t[3] and is_term(t[1]) and t[1][0] == "attr" and t[1][2] in DEFAULTS:
         d = DEFAULTS[t[1][2]]
         kws = tuple((n, v) for n, v in t[3] if not (n in d and is_term(v) and v == ("const", d[n])))
